@@ -30,6 +30,7 @@ import (
 	"sigs.k8s.io/karpenter/pkg/state/cost"
 	"sigs.k8s.io/karpenter/pkg/state/virtualpods"
 
+	"verif/harness/drivers/sched"
 	"verif/harness/trace"
 	"verif/harness/world"
 )
@@ -256,6 +257,9 @@ func (s *sim) mkNode(n *NodeSpec) *corev1.Node {
 	if n.Tainted {
 		node.Spec.Taints = append(node.Spec.Taints, v1.DisruptedNoScheduleTaint)
 	}
+	for _, t := range n.Taints {
+		node.Spec.Taints = append(node.Spec.Taints, corev1.Taint{Key: t.Key, Value: t.Value, Effect: corev1.TaintEffect(t.Effect)})
+	}
 	world.SetNodeReady(node, !n.NotReady && (n.Stage == "initialized" || !n.Managed), at(n.CreatedAt))
 	return node
 }
@@ -273,7 +277,17 @@ func (s *sim) mkPod(p *PodSpec) *corev1.Pod {
 	if p.ToleratesDisruption {
 		o.Tolerations = []corev1.Toleration{{Key: v1.DisruptedTaintKey, Operator: corev1.TolerationOpExists}}
 	}
+	for _, t := range p.Tol {
+		o.Tolerations = append(o.Tolerations, corev1.Toleration{Key: t.Key, Operator: corev1.TolerationOperator(t.Op), Value: t.Value,
+			Effect: corev1.TaintEffect(t.Effect)})
+	}
 	pod := world.Pod(o)
+	if len(p.Sel) > 0 {
+		pod.Spec.NodeSelector = map[string]string{}
+		for k, v := range p.Sel {
+			pod.Spec.NodeSelector[sched.Key(k)] = v
+		}
+	}
 	if p.HasPriority {
 		pod.Spec.Priority = lo.ToPtr(int32(p.Priority))
 	}
